@@ -12,16 +12,19 @@ PROPERTY = "C18"
 LEVEL = "exploration"
 TOLERANCE = "rel 1e-5 (mapper computes in float32)"
 RULE = (
-    "Hypothesis-generated (strict spec, single relaxation) pairs, the strict spec built so that the relaxed quantity is "
-    "present: size (finite GLB -> twice the value count or inf), may_keep (GLB may_keep Inputs/Outputs/~Inputs/~Outputs "
-    "-> All), keep (GLB keep Outputs/Inputs/All -> Nothing, or '~Main | X' -> '~Main'), loop_bounds (one entry of a PE "
-    "array's loop_bounds deleted; min_usage 0), min_usage (PE array min_usage 1/0.75/0.5 -> a lower value), "
-    "max_fused_loops (0 or 1 -> a larger value or inf; 2-Einsum fusable workloads), max_fused_loops_per_rank_variable "
-    "(1 -> 2), imperfect_temporal / imperfect_spatial (explore_imperfect_* False -> True; rank bounds with few divisors). "
-    "Specs: 1-2 Einsums, Main+GLB(+PE array | +Reg), rank bounds <= 7, finite throughputs, non-integral capacities. "
-    "Metrics ENERGY, LATENCY, EDP. Both specs are mapped; oracle: relaxed optimum <= strict optimum * (1+1e-5), and a "
-    "feasible strict spec must stay feasible. Strict infeasible => trivial. Non-trivial: both feasible. The label "
-    "'binding' counts pairs where the optimum strictly improved. Distinct = distinct (spec, relaxation, metrics)."
+    "Hypothesis-generated (strict spec, single relaxation) pairs; the relaxation kinds are dealt evenly over the cases and "
+    "the strict spec is built so that the relaxed quantity is present: size (a buffer of a few values -> twice the value "
+    "count or inf), may_keep (GLB may_keep Inputs/Outputs/~Inputs/~Outputs -> All), keep (GLB keep Outputs/Inputs/All -> "
+    "Nothing, or '~Main | X' -> '~Main'), loop_bounds (one entry of a PE array's loop_bounds deleted; min_usage 0), "
+    "min_usage (PE array min_usage 1/0.75/0.5 -> a lower value), max_fused_loops (0 or 1 -> a larger value or inf; "
+    "2-Einsum fusable workloads), max_fused_loops_per_rank_variable (1 -> 2), imperfect_temporal / imperfect_spatial "
+    "(explore_imperfect_* False -> True; rank bounds 3/5/7). Specs: 1-2 Einsums, Main+GLB(+PE array of 2-4 | +Reg), rank "
+    "bounds <= 7, finite throughputs, non-integral capacities, cost patterns chosen so that the relaxed resource matters "
+    "(slow dear Main over fast cheap buffers for memory kinds, slow MAC under fast memories for PE-array kinds). Metrics "
+    "ENERGY, LATENCY, EDP (PE-array kinds mostly LATENCY/EDP). Both specs are mapped; oracle: relaxed optimum <= strict "
+    "optimum * (1+1e-5), and a feasible strict spec must stay feasible. Strict infeasible => trivial. Non-trivial: both "
+    "feasible. The labels '<kind>:binding' count pairs where the optimum strictly improved. Distinct = distinct (spec, "
+    "relaxation, metrics)."
 )
 ASSUMPTIONS = [
     "min_usage is 0 in every pair that relaxes something else: FFM's documented fallback (return the highest-usage mappings when none reaches min_usage) makes the valid set depend non-monotonically on the other constraints",
@@ -31,6 +34,7 @@ ASSUMPTIONS = [
 KINDS = ["size", "may_keep", "keep", "loop_bounds", "min_usage", "max_fused_loops", "per_rank_fused",
          "imperfect_temporal", "imperfect_spatial"]
 METRICS = ["ENERGY", "LATENCY", "ENERGY_DELAY_PRODUCT"]
+SPATIAL_METRICS = ["LATENCY", "ENERGY_DELAY_PRODUCT", "LATENCY", "ENERGY"]
 OBJ = {"ENERGY": "energy", "LATENCY": "latency", "ENERGY_DELAY_PRODUCT": "edp"}
 ODD_POOL = [2, 3, 3, 5, 5, 7, 4, 6]
 
@@ -79,7 +83,8 @@ def cases(draw, slot):
         pool = ODD_POOL if kind == "imperfect_spatial" else None
         spec = draw(MM.small_specs(shapes=("matmul", "matmul", "matvec", "elementwise2", "chain2"),
                                    three_level_single=False, bound_pool=pool,
-                                   dear_main=draw(st.sampled_from(["compute_bound", "compute_bound", None]))))
+                                   dear_main=("compute_bound" if kind == "min_usage" else
+                                              draw(st.sampled_from(["compute_bound", "compute_bound", None])))))
         rvs = sorted(spec["bounds"])
         fanout = draw(st.sampled_from([2, 3, 4, 4]))
         if kind == "loop_bounds":
@@ -92,7 +97,7 @@ def cases(draw, slot):
             _add_pes(spec, fanout, lbs)
             relax = {"kind": kind, "index": draw(st.integers(0, n - 1))}
         elif kind == "min_usage":
-            hi, lo = draw(st.sampled_from([(1, 0.5), (1, 0), (0.75, 0.5), (0.5, 0), (1, 0.75), (0.75, 0.25)]))
+            hi, lo = draw(st.sampled_from([(1, 0.5), (1, 0), (0.75, 0.5), (0.5, 0), (1, 0.75), (0.75, 0.25), (1, 0.25), (0.5, 0.25)]))
             lbs = None
             if draw(st.integers(0, 2)) == 0:
                 lbs = [{"expression": draw(st.sampled_from(rvs)), "operator": "<=", "value": 1}]
@@ -200,7 +205,13 @@ N = {"quick": 45, "thorough": 450}
 def shards(tier, seed):
     # deterministic, even spread of the relaxation kinds
     nk = len(KINDS)
-    return MM.deal([{"kind": KINDS[(i + seed) % nk], "metrics": METRICS[(i // nk + i % nk) % 3]} for i in range(N[tier])], tier, seed)
+    slots = []
+    for i in range(N[tier]):
+        kind = KINDS[(i + seed) % nk]
+        # a PE array changes latency first: spatial kinds are mapped for LATENCY / EDP three times out of four
+        pool = SPATIAL_METRICS if kind in ("loop_bounds", "min_usage", "imperfect_spatial") else METRICS
+        slots.append({"kind": kind, "metrics": pool[(i // nk + i % nk) % len(pool)]})
+    return MM.deal(slots, tier, seed)
 
 
 def run_shard(shard, col):
@@ -214,7 +225,16 @@ def replay(desc, col):
 REGISTER = True
 QUICK_BUDGET_S = 600
 THOROUGH_BUDGET_S = 3000
-MUTANTS = []
+MUTANTS = [
+    {"what": "make_storages: only the first two optional (may_keep) tensors are considered for keeping", "caught": True, "how": "keep:optimum-worse"},
+    {"what": "make_storages: an empty keep set falls back to may_keep (`keep or may_keep`)", "caught": True, "how": "keep:optimum-worse, may_keep:optimum-worse, mapper-crash:ValueError"},
+    {"what": "make_tile_shapes: fused-loop limit comparison swapped (n >= limit)", "caught": True, "how": "max_fused_loops:optimum-worse"},
+    {"what": "make_pmappings: a memory is dropped from capacity tracking when the tensors fit within 2x its size", "caught": True, "how": "mapper-crash:InvalidMappingError (over-capacity mapping returned after a size relaxation)"},
+    {"what": "make_tile_shapes: min_value check inverted (result <= min_value), i.e. min_usage acts as a maximum", "caught": True, "how": "min_usage:optimum-worse"},
+    {"what": "make_tile_shapes.get_possible_factor_sizes: imperfect tile sizes start at twice the inner tile (unit tile dropped)", "caught": True, "how": "mapper-crash:ValueError"},
+    {"what": "constraints.MinUsage.__call__ comparison inverted; make_tile_shapes._factorize_imperfect drops 1 and n", "caught": False,
+     "note": "both are dead code (min_usage is enforced by an Objective in make_tile_shapes; _factorize_imperfect has no caller): relaxed == strict under the mutants in direct probes, so they are equivalent mutants; replaced by the two live-path mutants above"},
+]
 MANIFEST = {
     "level_text": "Metamorphic testing of map_workload_to_arch: a generated strict spec and the same spec with one relaxation (larger memory, larger may_keep, smaller keep, deleted loop bound, lower min_usage, higher fused-loop limits, imperfect factorisation enabled) are both mapped under ENERGY, LATENCY or EDP; the relaxed optimum must not exceed the strict one and feasibility must not be lost. No counterexample in N pairs; not a proof.",
     "level_note": "1-2 Einsums, rank bounds <= 7, 2-3 memory levels or a 2-4 wide PE array, non-integral capacities; min_usage > 0 only in min_usage pairs (documented FFM fallback). rel 1e-5.",
